@@ -138,6 +138,25 @@ def h_pair(ca, cb, route, mname, n, source):
         elif source == 'cached-twice':
             _ = CA('0x5a')
             A = CA('0x5a')
+        elif source.startswith('derived:'):
+            # A is itself the result of an earlier operation on another object (two-step histories)
+            x = K.bits('x', n + 3)
+            big = mk(K, CA, x, 0 if is_stream(CA) else None)
+            how = source.split(':')[1]
+            if how == 'slice':
+                A = big[1:1 + n]
+            elif how == 'stepslice':
+                A = big[0:n:1]
+            elif how == 'read':
+                A = big.read(f'bits:{n}') if is_stream(CA) else big[:n]
+            elif how == 'add':
+                A = big[:n] + CA()
+            elif how == 'cut':
+                A = list(big.cut(n))[0] if n else big[:0]
+            elif how == 'unpack':
+                A = big.unpack(f'bits:{n}, bits')[0]
+            if type(A) is not CA:
+                return K.fail('an operation on a bitstring returned an object of another class', got=type(A).__name__, how=how)
         a0 = _content(A)
         rb = call(lambda: _routes()[route](A, CB))
         if not rb.ok:
@@ -362,6 +381,13 @@ def conditions(tier):
                     for n in ([N] if q else [0, 1, N, 9]):
                         add(f'C04.pair[{ca}->{cb},{route},{mname},n={n}]', h_pair(ca, cb, route, mname, n, 'symbolic'),
                             f'all {n}-bit contents, all stream positions; route {route}; mutation {mname}', route=route, mutation=mname, source='symbolic')
+        for how in ('slice', 'stepslice', 'read', 'add', 'cut', 'unpack'):
+            for route in (['auto', 'copy()', 'copy.copy', 'and-self', 'or-self', 'bits-kw', 'slice-all', 'add-empty'] if q else routes):
+                for cb in (['Bits', 'BitArray'] if q else ['Bits', 'BitArray', 'ConstBitStream', 'BitStream']):
+                    if q and cb == 'BitArray' and route not in ('auto', 'bits-kw'):
+                        continue
+                    add(f'C04.pair[{ca}->{cb},{route},invert,n={N},source={how}]', h_pair(ca, cb, route, 'invert', N, 'derived:' + how),
+                        f'all {N + 3}-bit contents; the source is itself a {how} result; route {route}; mutation invert', route=route, mutation='invert', source=how)
         for source in ('string', 'fromstring', 'cached-twice'):
             for route in (['auto', 'bits-kw', 'copy()', 'slice-all', 'prop-assign-bits', 'tobitarray-back', 'add-empty', 'empty-plus', 'radd-empty'] if q else routes):
                 for mname in (['invert', 'append'] if q else ['invert', 'append', 'clear', 'overwrite', 'setitem']):
